@@ -181,6 +181,32 @@ func judge(h *history, deadlock string, panics []string) (*finding, stats) {
 			}
 		}
 		sort.Slice(okFetch, func(i, j int) bool { return okFetch[i].fetchEx().At < okFetch[j].fetchEx().At })
+		// a failed fetch is never served later: the NEXT call for the key (invoked after the failing
+		// call returned) must itself reach the node, unless another call fetched successfully meanwhile
+		for _, f := range calls {
+			fe := f.fetchEx()
+			if fe == nil || !fe.faulted() {
+				continue
+			}
+			var next *call
+			for _, c := range calls {
+				if c.Inv > f.Ret && (next == nil || c.Inv < next.Inv) {
+					next = c
+				}
+			}
+			if next == nil || next.fetchEx() != nil || !next.OK {
+				continue
+			}
+			refetched := false
+			for _, g := range okFetch {
+				if a := g.fetchEx().At; a > fe.At && a < next.Ret {
+					refetched = true
+				}
+			}
+			if !refetched {
+				vio("provenance", "failed-fetch-served-from-cache:next-call-did-not-reach-node", fmt.Sprintf("key %s: the fetch of call %d failed (%s); the next call %d (%s %s) returned without asking the node and nobody fetched the key in between", key, f.ID, fe.Ex.Fault.Kind, next.ID, next.Thread, next.Op))
+			}
+		}
 		nWin := len(okFetch) // windows 1..nWin: window i = after successful fetch i, before fetch i+1; window 0 = before any fetch
 		winOf := func(t int) int {
 			n := 0
